@@ -36,6 +36,10 @@ void vp_observe(std::uint64_t tag, std::uint64_t v) noexcept { std::printf("VP-O
 std::uint64_t vp_alloc_count() noexcept { return (std::uint64_t)g_nalloc.load(); }
 std::uint64_t vp_live_count() noexcept { return (std::uint64_t)g_live.load(); }
 std::uint64_t vp_thread_id() noexcept { return 0; }
+void vp_sync_point() noexcept {}
+void vp_hb_write(std::uint32_t) noexcept {}
+void vp_hb_read(std::uint32_t) noexcept {}
+int vp_yield_to_pending() noexcept { return 0; }
 void vp_native_begin() { load(); }
 void vp_native_end() {
   if (g_live.load() != 0) { std::printf("VP-FAIL leak: heap blocks alive at quiescence (%ld)\n", g_live.load()); std::fflush(stdout); std::_Exit(3); }
